@@ -4,7 +4,7 @@ import json
 TECH = "contract-based deductive verification: contracts as //@ comments on the real functions, VCs generated from go/ssa of the current working tree, every obligation discharged by z3 4.8 / z3 5.1 / cvc5 (raced)"
 claimed = {
  "C01": ('Proved for all inputs, precisions, modes, signs and aliasings: round() returns RoundSpec (the arithmetic definition of rounding, written from the property statement) of its input mantissa and leaves a canonical value (19-way case split, no assumed clause); Add/Sub return RoundSpec of the exact sum/difference, Mul of the exact product (via the assumed dec.mul/sqr value contract), Quo of the Euclidean quotient with sticky remainder and enough digits (ghost witnesses, DESIGN.md 10.3); Set/SetPrec/Neg/Abs likewise; under/overflow to +-0/+-Inf; index/nil/frame safety of the whole cone.',
-         'assumed: dec.mul/sqr/div value contracts (validated by bounded execution vs math/big, evidence.coverage.bounded); one paper step for Quo (DESIGN.md 10.3); operand size bounds (len <= 10^7 words, exponent gap <= 10^9)'),
+         'assumed: dec.mul, dec.sqr, dec.divLarge value contracts (validated by bounded execution vs math/big, evidence.coverage.bounded); one paper step for Quo (DESIGN.md 10.3); operand size bounds (len <= 10^7 words, exponent gap <= 10^9)'),
  "C02": ('Proved: acc component of RoundSpec for Set/SetPrec/setExpAndRound and every arithmetic value clause (Add, Sub, Mul, Quo, FMA), under/overflow accuracy, Exact on cancellation and special values, and for the integer setters SetInt64/SetUint64/NewDecimal/SetInt (value clauses: roundspec includes the accuracy), SetMantExp range clauses, GobDecode into a non-zero-precision receiver.',
          'same assumed clauses as C01; SetRat, string setters not covered'),
  "C03": ("Proved for every aliasing of z with x, y, u: the exact product (ghost gMp*10^gqp, tied to Mx*My by ensures[prod]) plus u is rounded once (fmaspec = RoundSpec of the exact sum/difference), the u == 0 shortcut equals Mul, special-value table, zero-sum sign rule, ErrNaN iff invalid, operands unchanged, validity. Domain: requires[prodrange] (product exponent inside the int32 range); outside it FMA is wrong - an open known finding kept visible by a bounded run.", "requires[prodrange], requires[range] size bounds; Add/umul contracts"),
@@ -12,7 +12,8 @@ claimed = {
          'functions not under contract (formatting, parsing, Float conversions, Karatsuba/division internals, sqrtInverse) are not covered by the no-other-panic half'),
  "C05": ("Proved: Sqrt(+-0) = +-0, Sqrt(+Inf) = +Inf, ErrNaN exactly for negative operands (incl. -Inf), precision rule, the receiver's rounding mode is preserved, the operand is not modified, the result is canonical - given the assumed frame/shape contract of sqrtInverse. The claim that the root is correctly rounded is a Newton-iteration error analysis that no contract within reach expresses: it is checked by BOUNDED execution against an exact integer oracle (evidence.coverage.bounded) and is in fact false - recorded as a known finding (off by one unit in the last place, also for perfect squares under directed modes).",
          'sqrtInverse assumed; rounding clause bounded only (known finding one-ulp)'),
- "C06": ("Proved: functional correctness of the word kernels (_g), mulAddWW, divW, add, sub, shl; index safety and frames of those; Mul/Quo are the exact product / Euclidean quotient rounded once GIVEN the value contracts of dec.mul, dec.sqr, dec.div. Those three contracts (Karatsuba, Knuth D, recursive division) are not within reach of the VC generator: they are assumed by callers and validated by BOUNDED execution against math/big for operand lengths up to 260 words and six threshold tunings (evidence.coverage.bounded).", "dec.mul/sqr/div assumed"),
+ "C06": ('Proved: functional correctness of the word kernels (Go and assembly), mulAddWW, divW, add, sub, shl, shr; dec.div itself (dispatch on dividend < divisor, one-word divisor through divW, otherwise divLarge) with quotient*divisor + remainder == dividend, remainder < divisor, normalised results and the length bounds; index safety and frames of those; Mul/Quo are the exact product / Euclidean quotient rounded once GIVEN the value contracts of dec.mul, dec.sqr and divLarge. Those three contracts (Karatsuba multiplication and squaring with their composition loops, Knuth D, recursive division) are not within reach of the VC generator: they are assumed by callers and validated by BOUNDED execution against math/big for operand lengths up to 260 words and six threshold tunings (evidence.coverage.bounded).',
+         'dec.mul, dec.sqr, dec.divLarge assumed (value clauses)'),
  "C07": ("Proved: every portable Go kernel (_g) satisfies its value contract (the mathematical definition) for all inputs and lengths, including the in-place/overlap layouts the library uses. Proved as well, by the assembly front end (symbolic execution of the Plan 9 amd64 text with label invariants, same contract text as the _g twin): all twelve routines of dec_arith_amd64.s - mul10WW, div10W, div10WW, div10VWW, mulAdd10VWW, addMul10VVW, add10VV, sub10VV, add10VW, sub10VW, shl10VU, shr10VU - including the shared tail routines decCpy/decCpyInv and the magic-number division tables (per shift count), and divWVW of arith_amd64.s with its Go twin (long division in base 2^64). Two implementations that satisfy the same contract agree word for word (the contract fixes every output word and the carry), so the default build and the pure-Go builds compute the same results. In addition a BOUNDED differential execution compares all assembly routines, the unused math/big kernels and the pure-Go build tags with the portable code (lengths 0..9, edge-word combinations, all shifts, overlapping layouts, canaries; evidence.coverage.bounded).",
          "trusted for the verified routines: the semantics of the modelled instruction subset as written in engine/asm.go, ABI0 argument layout, gc/amd64 struct layout of the magic table, flags after MULQ/DIVQ unspecified; math/big kernels other than divWVW are not called by the package and only compared"),
  "C08": ('Proved: valid(z) (canonical form: words below the base, normalized, mantissa fits the precision, trailing digits clear, zero/Inf have no mantissa) is a postcondition of every mutator under contract - round, setExpAndRound, Add, Sub, Mul, Quo, FMA, Sqrt, Set, SetPrec, Neg, Abs, SetInf, SetMantExp, SetBitsExp, SetInt64, SetUint64, NewDecimal, SetInt, GobDecode - on normal and ErrNaN exits, given valid operands.',
